@@ -57,6 +57,9 @@ def generate(tier, rng):
         elif n and rng.random() < 0.15:
             v = rng.choice(fc.fault_variants(c["ops"][-1], n, persistent=False))
             yield dict(c, ops=c["ops"][:-1] + [v])
+    for n0, ops in fc.reentrant_histories(rng, tier):
+        fl = rng.choice(["nm", "light"])
+        yield fc.mk(fl, False, n0, ops, cls=(rng.choice(fc.NM_CLASSES) if fl == "nm" else None))
     for n0, ops in fc.wide_histories(rng, tier):
         fl = rng.choice(["nm", "light"])
         if any(fc.has_nonnode(o) for o in ops):
@@ -69,6 +72,23 @@ def generate(tier, rng):
         yield fc.mk(fl, False, n0, ops, cls=(rng.choice(fc.NM_CLASSES) if fl == "nm" else None))
 
 
+def _observes(e):
+    """what the property promises a hook sees, evaluated on the snapshot the hook took (model-free): the moving node is
+    still in place before a step and already moved after it"""
+    kind, n, arg, snap = e
+    if kind in ("pre_detach", "post_detach", "pre_attach", "post_attach") and len(arg) == 1 and 0 <= arg[0] < len(snap):
+        p = arg[0]
+        par, kids = snap[n][0], snap[p][1]
+        if kind == "pre_detach":
+            return par == p and kids.count(n) == 1
+        if kind == "post_detach":
+            return par is None and n not in kids
+        if kind == "pre_attach":
+            return par is None and n not in kids
+        return par == p and kids and kids[-1] == n and kids.count(n) == 1
+    return True
+
+
 def judge(case, impl, drv):
     if not isinstance(impl, list):
         return False, False
@@ -77,6 +97,17 @@ def judge(case, impl, drv):
         return False, False
     p_ok = c_ok = True
     for op, r, m, s in zip(case["ops"], impl, mir, spec):
+        if "reenter" in (op.get("faults") or {}):
+            # a hook that detaches another node while the call is in progress: the logs contain the nested call, so they
+            # are not compared with the mirror's; every hook must still observe the tree before / after its own step, and
+            # the call must end where the nested call followed by the outer call ends
+            if r["res"] != m["res"] or r["snap"] != m["snap"]:
+                c_ok = False
+            if r["res"] != "ok" or r["snap"] != m["snap"] or not all(_observes(e) for e in (r.get("log") or [])):
+                p_ok = False
+            if not (p_ok and c_ok):
+                break
+            continue
         if r != m:
             c_ok = False
         if s["log"] is not None and r["log"] != s["log"]:
